@@ -5,6 +5,14 @@ From Verif Require Import Base.Outcome Wire.Item Gen.Consts Wire.Msgpack.
 Import ListNotations.
 Local Open Scope N_scope.
 
+(* injection / inversion normalise the big numerals inside model terms and can take minutes:
+   take equations between results apart with these instead *)
+Lemma Ok_inj : forall A (a b : A), Ok a = Ok b -> a = b.
+Proof. intros A a b H. injection H. auto. Qed.
+Lemma pair_inj : forall A B (a a' : A) (b b' : B), (a, b) = (a', b') -> a = a' /\ b = b'.
+Proof. intros A B a a' b b' H. injection H. auto. Qed.
+Ltac okinv H := apply Ok_inj in H; apply pair_inj in H; destruct H as [? ?].
+
 (* ================================================================== *)
 (* instrumented results *)
 
@@ -454,4 +462,444 @@ Proof.
   intros D b i rest E. unfold dec_naked, dec_fuel in E.
   destruct (dec_total_aux D (len b) (2 * length b + 1)) as [H _].
   destruct (H 0%Z b ltac:(lia)) as [_ H2]. eapply H2. exact E.
+Qed.
+
+(* ================================================================== *)
+(* skip: plain equations and totality *)
+
+Section SkipPlain.
+  Variable D : dopts.
+
+  Definition skipF f d b := fst (skipI D f d b).
+  Definition sseqF f d n b := fst (skip_seq D f d n b).
+  Definition spairsF f d n b := fst (skip_pairs D f d n b).
+
+  Definition skip_ext_fix (n : N) (r : list N) : res (list N) :=
+    do (_, r1) <- rd_n1 r ;;
+    if n =? 1 then (do (_, r2) <- rd_n1 r1 ;; Ok r2) else rd_skip n r1.
+
+  Definition skip_body (f : nat) (depth : Z) (bd : N) (r : list N) : res (list N) :=
+    match classify bd with
+    | DNil | DFalse | DTrue | DFixNum => Ok r
+    | DF32 => rd_skip 4 r
+    | DF64 => rd_skip 8 r
+    | DUint k | DInt k =>
+        match k with
+        | 1%nat => do (_, r') <- rd_n1 r ;; Ok r'
+        | _ => rd_skip (N.of_nat k) r
+        end
+    | DStr w => do (n, r1) <- rd_len bFixStrMin bd w r ;; rd_skip n r1
+    | DBin w => do (n, r1) <- rd_len 0 bd w r ;; rd_skip n r1
+    | DArr w =>
+        do (n, r1) <- rd_len bFixArrayMin bd w r ;;
+        do d' <- depth_incr D depth ;;
+        sseqF f d' n r1
+    | DMap w =>
+        do (n, r1) <- rd_len bFixMapMin bd w r ;;
+        do d' <- depth_incr D depth ;;
+        spairsF f d' n r1
+    | DFixExt n => skip_ext_fix n r
+    | DExt w => do (n, r0) <- rd_len 0 bd w r ;; do (_, r1) <- rd_n1 r0 ;; rd_skip n r1
+    | DBad => Err EBadDesc
+    end.
+
+  Lemma skipF_nil : forall f d, skipF (S f) d [] = Err EEof.
+  Proof. reflexivity. Qed.
+
+  Lemma skipF_S : forall f d bd r, skipF (S f) d (bd :: r) = skip_body f d bd r.
+  Proof.
+    intros f d bd r. unfold skipF, skip_body, skip_ext_fix. cbn [skipI].
+    destruct (classify bd); cbn [fst iframe iret ierr ilift]; try reflexivity.
+    - destruct k as [|[|k]]; reflexivity.
+    - destruct k as [|[|k]]; reflexivity.
+    - rewrite fst_ibind. cbn [fst ilift].
+      destruct (rd_len bFixArrayMin bd w r) as [[n r1]|e|]; cbn [bind]; try reflexivity.
+      rewrite fst_ibind. cbn [fst ilift].
+      destruct (depth_incr D d) as [d'|e|]; cbn [bind]; reflexivity.
+    - rewrite fst_ibind. cbn [fst ilift].
+      destruct (rd_len bFixMapMin bd w r) as [[n r1]|e|]; cbn [bind]; try reflexivity.
+      rewrite fst_ibind. cbn [fst ilift].
+      destruct (depth_incr D d) as [d'|e|]; cbn [bind]; reflexivity.
+  Qed.
+
+  Lemma sseqF_eq : forall f d n b,
+    sseqF f d n b =
+    if n =? 0 then Ok b
+    else match f with
+         | O => OutOfFuel
+         | S f' => do r <- skipF f' d b ;; sseqF f' d (n - 1) r
+         end.
+  Proof.
+    intros f d n b. unfold sseqF, skipF. destruct f; cbn [skip_seq]; destruct (n =? 0); try reflexivity.
+    rewrite fst_ibind.
+    match goal with |- match fst ?X with _ => _ end = _ => change X with (skipI D f d b) end.
+    destruct (fst (skipI D f d b)) as [r|e|]; cbn [bind]; reflexivity.
+  Qed.
+
+  Lemma spairsF_eq : forall f d n b,
+    spairsF f d n b =
+    if n =? 0 then Ok b
+    else match f with
+         | O => OutOfFuel
+         | S f' => do r <- skipF f' d b ;; do r' <- skipF f' d r ;; spairsF f' d (n - 1) r'
+         end.
+  Proof.
+    intros f d n b. unfold spairsF, skipF. destruct f; cbn [skip_pairs]; destruct (n =? 0); try reflexivity.
+    rewrite fst_ibind.
+    match goal with |- match fst ?X with _ => _ end = _ => change X with (skipI D f d b) end.
+    destruct (fst (skipI D f d b)) as [r|e|]; cbn [bind]; try reflexivity.
+    rewrite fst_ibind.
+    match goal with |- match fst ?X with _ => _ end = _ => change X with (skipI D f d r) end.
+    destruct (fst (skipI D f d r)) as [r'|e|]; cbn [bind]; reflexivity.
+  Qed.
+
+  (* no-longer / strictly-shorter for results that are just the rest *)
+  Definition sl (b : list N) (r : res (list N)) : Prop :=
+    r <> OutOfFuel /\ forall rest, r = Ok rest -> (length rest <= length b)%nat.
+
+  Lemma sl_ok : forall b r, (length r <= length b)%nat -> sl b (Ok r).
+  Proof. intros. split; [discriminate|]. intros rest E. inversion E; subst; assumption. Qed.
+  Lemma sl_err : forall b e, sl b (Err e).
+  Proof. intros. split; [discriminate|intros; discriminate]. Qed.
+  Lemma sl_le : forall b b' r, sl b' r -> (length b' <= length b)%nat -> sl b r.
+  Proof. intros b b' r [H1 H2] Hl. split; [assumption|]. intros rest E. apply H2 in E. lia. Qed.
+  Lemma sl_rd_skip : forall n b, sl b (rd_skip n b).
+  Proof. intros. exact (nl_rd_skip n b). Qed.
+  Lemma sl_bind : forall A b (r : res (A * list N)) (k : A * list N -> res (list N)),
+    nl b r -> (forall a b', (length b' <= length b)%nat -> sl b' (k (a, b'))) -> sl b (bind r k).
+  Proof.
+    intros A b r k [H1 H2] H3. destruct r as [[a b']|e|]; cbn [bind].
+    - specialize (H2 a b' eq_refl). apply sl_le with (b' := b'); [apply H3; assumption|assumption].
+    - apply sl_err.
+    - contradiction H1; reflexivity.
+  Qed.
+
+  Lemma skip_body_total : forall f d bd r,
+    (forall d' n r1, (length r1 <= length r)%nat -> sl r1 (sseqF f d' n r1)) ->
+    (forall d' n r1, (length r1 <= length r)%nat -> sl r1 (spairsF f d' n r1)) ->
+    sl r (skip_body f d bd r).
+  Proof.
+    intros f d bd r Hs Hp. unfold skip_body, skip_ext_fix.
+    destruct (classify bd); try (apply sl_ok; lia); try apply sl_err; try apply sl_rd_skip.
+    - destruct k as [|[|k]]; try apply sl_rd_skip.
+      apply sl_bind; [apply nl_rd_n1|]. intros a b' Hl. apply sl_ok; lia.
+    - destruct k as [|[|k]]; try apply sl_rd_skip.
+      apply sl_bind; [apply nl_rd_n1|]. intros a b' Hl. apply sl_ok; lia.
+    - apply sl_bind; [apply nl_rd_len|]. intros n r1 Hl. apply sl_rd_skip.
+    - apply sl_bind; [apply nl_rd_len|]. intros n r1 Hl. apply sl_rd_skip.
+    - apply sl_bind; [apply nl_rd_len|]. intros n r1 Hl.
+      destruct (depth_incr D d) as [d'|e|] eqn:Ed; cbn [bind].
+      + apply Hs; assumption.
+      + apply sl_err.
+      + unfold depth_incr in Ed. destruct (_ <=? _)%Z; discriminate.
+    - apply sl_bind; [apply nl_rd_len|]. intros n r1 Hl.
+      destruct (depth_incr D d) as [d'|e|] eqn:Ed; cbn [bind].
+      + apply Hp; assumption.
+      + apply sl_err.
+      + unfold depth_incr in Ed. destruct (_ <=? _)%Z; discriminate.
+    - apply sl_bind; [apply nl_rd_n1|]. intros a b' Hl.
+      destruct (n =? 1); [|apply sl_rd_skip].
+      apply sl_bind; [apply nl_rd_n1|]. intros a2 b2 Hl2. apply sl_ok; lia.
+    - apply sl_bind; [apply nl_rd_len|]. intros n r1 Hl.
+      apply sl_bind; [apply nl_rd_n1|]. intros a b' Hl2. apply sl_rd_skip.
+  Qed.
+
+  Definition sls (b : list N) (r : res (list N)) : Prop :=
+    r <> OutOfFuel /\ forall rest, r = Ok rest -> (length rest < length b)%nat.
+
+  Lemma skip_total_aux : forall f,
+    (forall d b, (2 * length b + 1 <= f)%nat -> sls b (skipF f d b)) /\
+    (forall d n b, (2 * length b + 2 <= f)%nat -> sl b (sseqF f d n b)) /\
+    (forall d n b, (2 * length b + 2 <= f)%nat -> sl b (spairsF f d n b)).
+  Proof.
+    induction f as [|f [IHd [IHs IHp]]].
+    - repeat apply conj; intros; lia.
+    - repeat apply conj.
+      + intros d [|bd r] Hf.
+        * rewrite skipF_nil. split; [discriminate|intros; discriminate].
+        * rewrite skipF_S. cbn [length] in Hf.
+          destruct (skip_body_total f d bd r) as [H1 H2].
+          { intros d' n r1 Hl. apply IHs. lia. }
+          { intros d' n r1 Hl. apply IHp. lia. }
+          split; [assumption|]. intros rest E. apply H2 in E. cbn [length]. lia.
+      + intros d n b Hf. rewrite sseqF_eq. destruct (n =? 0); [apply sl_ok; lia|].
+        destruct (IHd d b ltac:(lia)) as [H1 H2].
+        destruct (skipF f d b) as [r|e|] eqn:E; cbn [bind]; [|apply sl_err|contradiction H1; reflexivity].
+        specialize (H2 r eq_refl).
+        apply sl_le with (b' := r); [|lia]. apply IHs. lia.
+      + intros d n b Hf. rewrite spairsF_eq. destruct (n =? 0); [apply sl_ok; lia|].
+        destruct (IHd d b ltac:(lia)) as [H1 H2].
+        destruct (skipF f d b) as [r|e|] eqn:E; cbn [bind]; [|apply sl_err|contradiction H1; reflexivity].
+        specialize (H2 r eq_refl).
+        destruct (IHd d r ltac:(lia)) as [H3 H4].
+        destruct (skipF f d r) as [r'|e|] eqn:E2; cbn [bind]; [|apply sl_err|contradiction H3; reflexivity].
+        specialize (H4 r' eq_refl).
+        apply sl_le with (b' := r'); [|lia]. apply IHp. lia.
+  Qed.
+End SkipPlain.
+
+Lemma skip_total : forall D d0 b, skip_at D d0 (dec_fuel b) b <> OutOfFuel.
+Proof.
+  intros D d0 b. unfold skip_at, dec_fuel.
+  destruct (skip_total_aux D (2 * length b + 1)) as [H _].
+  destruct (H d0 b ltac:(lia)) as [H1 _]. exact H1.
+Qed.
+
+Lemma skip_progress : forall D d0 b rest, skip_at D d0 (dec_fuel b) b = Ok rest -> (length rest < length b)%nat.
+Proof.
+  intros D d0 b rest E. unfold skip_at, dec_fuel in E.
+  destruct (skip_total_aux D (2 * length b + 1)) as [H _].
+  destruct (H d0 b ltac:(lia)) as [_ H2]. apply H2. exact E.
+Qed.
+
+(* ================================================================== *)
+(* depth: the recursion of both parsers is bounded by MaxDepth, whatever the input *)
+
+(* every recursive call happens at a depth below maxdepth, so the number of nested frames is at
+   most maxdepth - depth *)
+Section Depth.
+  Variable D : dopts.
+  Variable cap : N.
+
+  Definition room (d : Z) : nat := Z.to_nat (maxdepth D - d).
+
+  Lemma depth_incr_ok : forall d d', depth_incr D d = Ok d' -> d' = (d + 1)%Z /\ (d + 1 < maxdepth D)%Z.
+  Proof.
+    intros d d' H. unfold depth_incr in H. destruct (Z.leb_spec (maxdepth D) (d + 1)); [discriminate|].
+    inversion H. split; [reflexivity|lia].
+  Qed.
+
+  Lemma snd_ilift : forall A (r : res A), snd (ilift r) = O.
+  Proof. reflexivity. Qed.
+
+  Lemma dec_rec_aux : forall f,
+    (forall d b, (d < maxdepth D)%Z -> (snd (decI D cap f d b) <= room d)%nat) /\
+    (forall d n b, (d < maxdepth D)%Z -> (snd (dec_seq D cap f d n b) <= room d)%nat) /\
+    (forall d n b, (d < maxdepth D)%Z -> (snd (dec_pairs D cap f d n b) <= room d)%nat).
+  Proof.
+    induction f as [|f [IHd [IHs IHp]]].
+    - repeat apply conj; intros; cbn [decI dec_seq dec_pairs]; try destruct (n =? 0); cbn; lia.
+    - repeat apply conj.
+      + intros d b Hd. cbn [decI]. unfold iframe. cbn [snd].
+        assert (Hr : (1 <= room d)%nat) by (unfold room; lia).
+        destruct b as [|bd r]; [cbn; lia|].
+        destruct (classify bd); cbn [snd iret ierr ilift]; try lia.
+        * (* arr *)
+          assert (forall n r1 d', depth_incr D d = Ok d' ->
+                    (S (snd (dec_seq D cap f d' n r1)) <= room d)%nat) as Hrec.
+          { intros n r1 d' Hi. apply depth_incr_ok in Hi. destruct Hi as [-> Hlt].
+            specialize (IHs (d + 1)%Z n r1 Hlt). unfold room in *. lia. }
+          unfold ibind at 1. cbn [fst snd ilift].
+          destruct (rd_len bFixArrayMin bd w r) as [[n r1]|e|]; cbn [snd]; try lia.
+          unfold ibind at 1. cbn [fst snd ilift].
+          destruct (depth_incr D d) as [d'|e|] eqn:Ed; cbn [snd]; try lia.
+          specialize (Hrec n r1 d' eq_refl).
+          unfold ibind.
+          match goal with |- context [fst ?X] => change X with (dec_seq D cap f d' n r1) end.
+          destruct (fst (dec_seq D cap f d' n r1)) as [[l r2]|e|]; cbn [snd fst iret];
+          match goal with |- context [snd ?X] => change X with (dec_seq D cap f d' n r1) end; lia.
+        * (* map *)
+          assert (forall n r1 d', depth_incr D d = Ok d' ->
+                    (S (snd (dec_pairs D cap f d' n r1)) <= room d)%nat) as Hrec.
+          { intros n r1 d' Hi. apply depth_incr_ok in Hi. destruct Hi as [-> Hlt].
+            specialize (IHp (d + 1)%Z n r1 Hlt). unfold room in *. lia. }
+          unfold ibind at 1. cbn [fst snd ilift].
+          destruct (rd_len bFixMapMin bd w r) as [[n r1]|e|]; cbn [snd]; try lia.
+          unfold ibind at 1. cbn [fst snd ilift].
+          destruct (depth_incr D d) as [d'|e|] eqn:Ed; cbn [snd]; try lia.
+          specialize (Hrec n r1 d' eq_refl).
+          unfold ibind.
+          match goal with |- context [fst ?X] => change X with (dec_pairs D cap f d' n r1) end.
+          destruct (fst (dec_pairs D cap f d' n r1)) as [[l r2]|e|]; cbn [snd fst iret];
+          match goal with |- context [snd ?X] => change X with (dec_pairs D cap f d' n r1) end; lia.
+      + intros d n b Hd. cbn [dec_seq]. destruct (n =? 0); [cbn; lia|].
+        apply snd_ibind_le; [apply IHd; assumption|]. intros [x r].
+        apply snd_ibind_le; [apply IHs; assumption|]. intros [xs r']. cbn; lia.
+      + intros d n b Hd. cbn [dec_pairs]. destruct (n =? 0); [cbn; lia|].
+        apply snd_ibind_le; [apply IHd; assumption|]. intros [k r].
+        apply snd_ibind_le; [apply IHd; assumption|]. intros [v r'].
+        destruct (hashable (key_fix k)); [|cbn; lia].
+        apply snd_ibind_le; [apply IHp; assumption|]. intros [xs r'']. cbn; lia.
+  Qed.
+End Depth.
+
+Section SkipDepth.
+  Variable D : dopts.
+
+  Lemma skip_rec_aux : forall f,
+    (forall d b, (d < maxdepth D)%Z -> (snd (skipI D f d b) <= room D d)%nat) /\
+    (forall d n b, (d < maxdepth D)%Z -> (snd (skip_seq D f d n b) <= room D d)%nat) /\
+    (forall d n b, (d < maxdepth D)%Z -> (snd (skip_pairs D f d n b) <= room D d)%nat).
+  Proof.
+    induction f as [|f [IHd [IHs IHp]]].
+    - repeat apply conj; intros; cbn [skipI skip_seq skip_pairs]; try destruct (n =? 0); cbn; lia.
+    - repeat apply conj.
+      + intros d b Hd. cbn [skipI]. unfold iframe. cbn [snd].
+        assert (Hr : (1 <= room D d)%nat) by (unfold room; lia).
+        destruct b as [|bd r]; [cbn; lia|].
+        destruct (classify bd); cbn [snd iret ierr ilift]; try lia.
+        * destruct k as [|[|k]]; cbn [snd ilift]; lia.
+        * destruct k as [|[|k]]; cbn [snd ilift]; lia.
+        * unfold ibind at 1. cbn [fst snd ilift].
+          destruct (rd_len bFixArrayMin bd w r) as [[n r1]|e|]; cbn [snd]; try lia.
+          unfold ibind at 1. cbn [fst snd ilift].
+          destruct (depth_incr D d) as [d'|e|] eqn:Ed; cbn [snd]; try lia.
+          apply depth_incr_ok in Ed. destruct Ed as [-> Hlt].
+          specialize (IHs (d + 1)%Z n r1 Hlt).
+          match goal with |- context [snd ?X] => change X with (skip_seq D f (d + 1) n r1) end.
+          unfold room in *. lia.
+        * unfold ibind at 1. cbn [fst snd ilift].
+          destruct (rd_len bFixMapMin bd w r) as [[n r1]|e|]; cbn [snd]; try lia.
+          unfold ibind at 1. cbn [fst snd ilift].
+          destruct (depth_incr D d) as [d'|e|] eqn:Ed; cbn [snd]; try lia.
+          apply depth_incr_ok in Ed. destruct Ed as [-> Hlt].
+          specialize (IHp (d + 1)%Z n r1 Hlt).
+          match goal with |- context [snd ?X] => change X with (skip_pairs D f (d + 1) n r1) end.
+          unfold room in *. lia.
+      + intros d n b Hd. cbn [skip_seq]. destruct (n =? 0); [cbn; lia|].
+        apply snd_ibind_le; [apply IHd; assumption|]. intros r. apply IHs; assumption.
+      + intros d n b Hd. cbn [skip_pairs]. destruct (n =? 0); [cbn; lia|].
+        apply snd_ibind_le; [apply IHd; assumption|]. intros r.
+        apply snd_ibind_le; [apply IHd; assumption|]. intros r'. apply IHp; assumption.
+  Qed.
+End SkipDepth.
+
+Lemma maxdepth_pos : forall D, (1 <= maxdepth D)%Z.
+Proof. intros. unfold maxdepth. destruct (Z.ltb_spec 0 (d_maxdepth D)); [lia|]. vm_compute. discriminate. Qed.
+
+(* dec_depth (recursion): whatever the bytes, the decoder never has more than MaxDepth frames
+   of its recursive function active *)
+Lemma dec_depth_rec : forall D fuel b, (Z.of_nat (dec_maxrec D fuel b) <= maxdepth D)%Z.
+Proof.
+  intros. unfold dec_maxrec. pose proof (maxdepth_pos D) as Hp.
+  destruct (dec_rec_aux D (len b) fuel) as [H _]. specialize (H 0%Z b ltac:(lia)).
+  unfold room in H. lia.
+Qed.
+
+(* the same for the skip parser (after the F14-1 repair) *)
+Lemma skip_depth_rec : forall D fuel b, (Z.of_nat (skip_maxrec D fuel b) <= maxdepth D)%Z.
+Proof.
+  intros. unfold skip_maxrec. pose proof (maxdepth_pos D) as Hp.
+  destruct (skip_rec_aux D fuel) as [H _]. specialize (H 0%Z b ltac:(lia)).
+  unfold room in H. lia.
+Qed.
+
+(* dec_depth (values): nothing nested MaxDepth or more levels is ever produced *)
+Section DepthVal.
+  Variable D : dopts.
+  Variable cap : N.
+
+  Definition ldepth (l : list item) : nat := fold_right (fun x m => Nat.max (depth x) m) 0%nat l.
+  Definition pdepth (l : list (item * item)) : nat :=
+    fold_right (fun kv m => Nat.max (Nat.max (depth (fst kv)) (depth (snd kv))) m) 0%nat l.
+
+  Lemma depth_key_fix : forall k, depth (key_fix k) = depth k.
+  Proof. destruct k; reflexivity. Qed.
+
+  Lemma unix_time_depth : forall s n, depth (unix_time s n) = 0%nat.
+  Proof. reflexivity. Qed.
+
+  Lemma dec_time_depth : forall n b i r, dec_time n b = Ok (i, r) -> depth i = 0%nat.
+  Proof.
+    intros n b i r H. unfold dec_time in H.
+    destruct (n =? 4).
+    { destruct (rd_nk 4 b) as [[x r']|e|]; cbn [bind] in H; try discriminate.
+      okinv H. subst i. apply unix_time_depth. }
+    destruct (n =? 8).
+    { destruct (rd_nk 8 b) as [[x r']|e|]; cbn [bind] in H; try discriminate.
+      okinv H. subst i. apply unix_time_depth. }
+    destruct (n =? 12); [|discriminate].
+    destruct (rd_nk 4 b) as [[x r']|e|]; cbn [bind] in H; try discriminate.
+    destruct (rd_nk 8 r') as [[y r'']|e|]; cbn [bind] in H; try discriminate.
+    okinv H. subst i. apply unix_time_depth.
+  Qed.
+
+  Lemma ext_body_depth : forall n b i r, ext_body cap n b = Ok (i, r) -> depth i = 0%nat.
+  Proof.
+    intros n b i r H. unfold ext_body in H.
+    destruct (rd_n1 b) as [[tag r1]|e|]; cbn [bind] in H; try discriminate.
+    destruct (tag =? bTimeExtTagU); [eapply dec_time_depth; exact H|].
+    destruct (rd_readx cap n r1) as [[s r2]|e|]; cbn [bind] in H; inversion H; reflexivity.
+  Qed.
+
+  Lemma dec_val_depth_aux : forall f,
+    (forall d b i r, decF D cap f d b = Ok (i, r) -> (d + Z.of_nat (depth i) < Z.max (maxdepth D) (d + 1))%Z) /\
+    (forall d n b l r, (d < maxdepth D)%Z -> seqF D cap f d n b = Ok (l, r) -> (d + Z.of_nat (ldepth l) <= maxdepth D - 1)%Z) /\
+    (forall d n b l r, (d < maxdepth D)%Z -> pairsF D cap f d n b = Ok (l, r) -> (d + Z.of_nat (pdepth l) <= maxdepth D - 1)%Z).
+  Proof.
+    induction f as [|f [IHd [IHs IHp]]].
+    - repeat apply conj.
+      + intros d b i r H. discriminate.
+      + intros d n b l r Hd H. rewrite seqF_eq in H. destruct (n =? 0); [|discriminate]. inversion H; subst. cbn. lia.
+      + intros d n b l r Hd H. rewrite pairsF_eq in H. destruct (n =? 0); [|discriminate]. inversion H; subst. cbn. lia.
+    - repeat apply conj.
+      + intros d [|bd b] i r H; [discriminate|]. rewrite decF_S in H. unfold dec_body in H.
+        destruct (classify bd);
+          try (inversion H; subst; cbn [depth]; lia);
+          try (destruct (rd_nk _ b) as [[x r']|e|]; cbn [bind] in H; inversion H; subst; unfold mkuint; try destruct (d_signedinteger D); cbn [depth]; lia).
+        * destruct (rd_len bFixStrMin bd w b) as [[n r1]|e|]; cbn [bind] in H; try discriminate.
+          destruct (rd_readx cap n r1) as [[s r2]|e|]; cbn [bind] in H; inversion H; subst.
+          unfold mkraw. destruct (_ || _); cbn [depth]; lia.
+        * destruct (rd_len 0 bd w b) as [[n r1]|e|]; cbn [bind] in H; try discriminate.
+          destruct (rd_readx cap n r1) as [[s r2]|e|]; cbn [bind] in H; inversion H; subst.
+          unfold mkraw. destruct (d_rawtostring D); cbn [depth]; lia.
+        * destruct (rd_len bFixArrayMin bd w b) as [[n r1]|e|]; cbn [bind] in H; try discriminate.
+          destruct (depth_incr D d) as [d'|e|] eqn:Ed; cbn [bind] in H; try discriminate.
+          apply depth_incr_ok in Ed. destruct Ed as [-> Hlt].
+          destruct (seqF D cap f (d + 1) n r1) as [[l r2]|e|] eqn:Es; cbn [bind] in H; inversion H; subst.
+          apply IHs in Es; [|assumption]. cbn [depth]. fold (ldepth l). lia.
+        * destruct (rd_len bFixMapMin bd w b) as [[n r1]|e|]; cbn [bind] in H; try discriminate.
+          destruct (depth_incr D d) as [d'|e|] eqn:Ed; cbn [bind] in H; try discriminate.
+          apply depth_incr_ok in Ed. destruct Ed as [-> Hlt].
+          destruct (pairsF D cap f (d + 1) n r1) as [[l r2]|e|] eqn:Es; cbn [bind] in H; inversion H; subst.
+          apply IHp in Es; [|assumption]. cbn [depth]. fold (pdepth l). lia.
+        * apply ext_body_depth in H. lia.
+        * destruct (rd_len 0 bd w b) as [[n r1]|e|]; cbn [bind] in H; try discriminate.
+          apply ext_body_depth in H. lia.
+      + intros d n b l r Hd H. rewrite seqF_eq in H. destruct (n =? 0); [inversion H; subst; cbn; lia|].
+        destruct (decF D cap f d b) as [[x r1]|e|] eqn:E1; cbn [bind] in H; try discriminate.
+        destruct (seqF D cap f d (n - 1) r1) as [[xs r2]|e|] eqn:E2; cbn [bind] in H; inversion H; subst.
+        apply IHd in E1. apply IHs in E2; [|assumption]. cbn [ldepth fold_right]. fold (ldepth xs). lia.
+      + intros d n b l r Hd H. rewrite pairsF_eq in H. destruct (n =? 0); [inversion H; subst; cbn; lia|].
+        destruct (decF D cap f d b) as [[k r1]|e|] eqn:E1; cbn [bind] in H; try discriminate.
+        destruct (decF D cap f d r1) as [[v r2]|e|] eqn:E2; cbn [bind] in H; try discriminate.
+        destruct (hashable (key_fix k)); [|discriminate].
+        destruct (pairsF D cap f d (n - 1) r2) as [[xs r3]|e|] eqn:E3; cbn [bind] in H; inversion H; subst.
+        apply IHd in E1. apply IHd in E2. apply IHp in E3; [|assumption].
+        cbn [pdepth fold_right fst snd]. fold (pdepth xs). rewrite depth_key_fix. lia.
+  Qed.
+End DepthVal.
+
+Lemma dec_depth_val : forall D fuel b i rest,
+  dec_naked D fuel b = Ok (i, rest) -> (Z.of_nat (depth i) < maxdepth D)%Z.
+Proof.
+  intros D fuel b i rest H. unfold dec_naked in H.
+  destruct (dec_val_depth_aux D (len b) fuel) as [Hd _].
+  apply Hd in H. pose proof (maxdepth_pos D). lia.
+Qed.
+
+(* k one-element arrays around nil, k >= MaxDepth: exactly the depth error, for every k *)
+Definition nested_arr (k : nat) : list N := repeat (N.lor bFixArrayMin 1) k ++ [bNil].
+
+Lemma nested_arr_err : forall D cap k f d,
+  (d < maxdepth D)%Z -> (maxdepth D <= d + Z.of_nat k)%Z -> (2 * k + 1 <= f)%nat ->
+  decF D cap f d (nested_arr k) = Err EDepth.
+Proof.
+  intros D cap k. induction k as [|k IH]; intros f d Hd Hk Hf; [lia|].
+  destruct f as [|f]; [lia|].
+  unfold nested_arr. cbn [repeat app]. rewrite decF_S. unfold dec_body.
+  change (classify (N.lor bFixArrayMin 1)) with (DArr 0).
+  cbn [rd_len bind]. change (N.lxor bFixArrayMin (N.lor bFixArrayMin 1)) with 1.
+  unfold depth_incr. destruct (Z.leb_spec (maxdepth D) (d + 1)) as [Hle|Hgt]; [reflexivity|].
+  cbn [bind]. rewrite seqF_eq. cbn [N.eqb]. destruct f as [|f]; [lia|].
+  fold (nested_arr k). rewrite IH by lia. reflexivity.
+Qed.
+
+Lemma dec_depth_err : forall D k, (maxdepth D <= Z.of_nat k)%Z ->
+  dec_naked D (dec_fuel (nested_arr k)) (nested_arr k) = Err EDepth.
+Proof.
+  intros D k Hk. unfold dec_naked. apply nested_arr_err.
+  - pose proof (maxdepth_pos D). lia.
+  - lia.
+  - unfold dec_fuel, nested_arr. rewrite app_length, repeat_length. cbn [length]. lia.
 Qed.
